@@ -69,7 +69,7 @@ contract(f"{OWN}.check_enough_min_chain_length_for_issuer", bound="certificate d
          ensures={"true_iff_every_group_has_chain_length_left": "result == chain_length_allows(self.certificate)"},
          canary={"always": "result", "never": "not result"}, **S)
 
-VSUBJ = cert(groups=[None, [1]], app_lens=(1,), sig=SIGVAL, issuer=T.oneof(T.none, cert(app_lens=(1,), groups=[["all"], [1]])))
+VSUBJ = cert(groups=[None, [1]], app_lens=(1,), sig=SIGVAL, issuer=T.oneof(T.none, cert(app_lens=(1,), groups=[["all"], [1]], sig=SIGVAL)))
 _ISSUED = "self.certificate['issuer'][0] == 'sha256AndDigest'"
 contract(f"{CERT}.verify", bound="certificate dictionaries with at most 2 permission groups of at most 2 PSIDs and at most 2 appPermissions", shapes={"self": VSUBJ, "backend": T.opaque("ecdsa_backend")}, may_raise=["Exception"], inline=[f"{CERT}.as_hashedid8"],
          ensures={
